@@ -55,7 +55,10 @@ class GenDyn(Gen):
         self.pps = [["p", 0, 0]] + ([["pp", 1, 1]] if two else [])
         mir["pf"][("P",)] = self.new_pf(self.pps, rng.random() < 0.3)
         if self.nested:
-            mir["pf"][("P", "Q")] = self.new_pf([["q", 0, 0]], False,
+            # half of the nested spaces reuse the OUTER parameter name: in P[a].Q[b] the name
+            # denotes b (the nearest instance), also in Q's child spaces
+            self.qname = "p" if rng.random() < 0.5 else "q"
+            mir["pf"][("P", "Q")] = self.new_pf([[self.qname, 0, 0]], False,
                                                base=["R"] if self.outer_base else None)
         if ["B"] in sp and rng.random() < 0.7:
             mir["bases"][("P",)] = [["B"]]
@@ -381,7 +384,7 @@ class GenDyn(Gen):
             # the parameter formula of the NESTED parametrised space changes (one or two
             # parameters): existing P[i] hold a replica of Q built for the old signature
             two = rng.random() < 0.5
-            qps = [["q", 0, 0]] + ([["qq", 1, rng.choice([0, 1])]] if two else [])
+            qps = [[getattr(self, "qname", "q"), 0, 0]] + ([["qq", 1, rng.choice([0, 1])]] if two else [])
             return {"op": "set_pf", "s": ["P", "Q"],
                     "f": self.new_pf(qps, False, base=["R"] if getattr(self, "outer_base", False) else None)}
         if rng.random() < 0.2:
